@@ -1244,6 +1244,28 @@ fn name_specs(cfg: GenCfg) -> impl Strategy<Value = Vec<NameSpec>> {
     )
 }
 
+/// How the display language spells `#REF!` (asked from the engine once per language).
+pub fn ref_literal(language: &str) -> String {
+    use std::sync::{Mutex, OnceLock};
+    static CACHE: OnceLock<Mutex<BTreeMap<String, String>>> = OnceLock::new();
+    let cache = CACHE.get_or_init(|| Mutex::new(BTreeMap::new()));
+    if let Some(v) = cache.lock().ok().and_then(|c| c.get(language).cloned()) {
+        return v;
+    }
+    let v = (|| {
+        let mut m = Model::new_empty("lit", "en", "UTC", "en").ok()?;
+        m.set_user_input(0, 1, 1, "=#REF!".to_string()).ok()?;
+        m.set_language(crate::engine::ops::leak(language)).ok()?;
+        let c = m.get_localized_cell_content(0, 1, 1).ok()?;
+        Some(c.trim_start_matches('=').to_string())
+    })()
+    .unwrap_or_else(|| "#REF!".to_string());
+    if let Ok(mut c) = cache.lock() {
+        c.insert(language.to_string(), v.clone());
+    }
+    v
+}
+
 pub fn config_strategy() -> impl Strategy<Value = (String, String)> {
     prop_oneof![
         16 => Just(("en", "en")),
@@ -1669,6 +1691,22 @@ pub fn compare(
         absorb_wildcards(&mut exp, &mut act);
         let host = if moved { "host-moved" } else { "host-fixed" };
         let lost_range = fates.iter().any(|f| f.is_range && !f.kept);
+        if lost_range && matches!(act, Node::ParseErrorKind { .. }) && ref_literal(&language) != "#REF!" && b.content.contains("#REF!") {
+            // the lost corner is spelled with the English error literal although the display
+            // language has its own: the text can never parse in this language
+            out.push(Mismatch {
+                signature: format!("{prop}:ref-error-literal-not-localized"),
+                detail: format!(
+                    "after {}: {here}: formula {:?} became {:?}: the lost reference is spelled #REF!, the language {language:?} spells it {:?}",
+                    e.describe(),
+                    a.content,
+                    b.content,
+                    ref_literal(&language)
+                ),
+            });
+            st.fates.extend(fates);
+            continue;
+        }
         if lost_range && matches!(act, Node::ParseErrorKind { .. }) {
             // the printed remains of a range that lost a corner need not parse (`$A1:#REF!`):
             // "is no longer a valid reference" holds, nothing else is asserted
